@@ -1293,8 +1293,13 @@ def groupby_projection(expr, parent, dependents):
         columns = [col for col in expr.frame.columns if col in columns]
         if columns == expr.frame.columns:
             return
+        substitutions = {"frame": expr.frame[columns]}
+        _slice = getattr(expr, "_slice", None)
+        if isinstance(_slice, list):
+            # The selection of the groupby must not refer to pruned columns
+            substitutions["_slice"] = [col for col in _slice if col in columns]
         return type(parent)(
-            type(expr)(expr.frame[columns], *expr.operands[1:]),
+            expr.substitute_parameters(substitutions),
             *parent.operands[1:],
         )
     return
